@@ -7,11 +7,11 @@
    census"):
        raw text, print, {log}, {debugger}, {let $x: e /}, {let $x}..{/let},
        {if}/{elseif}/{else}, {for $x in e}..{ifempty}..{/for}.
-   NOT covered here (see notes/astprint-reparse.md): {switch} (String() prints the default case
-   as "{case }", which the parser rejects; the {case a, b} form re-parses on the real code but is
-   not part of this token-level statement), {call}, {msg}, {css} (re-parse on the real code,
-   census of the C17 harness; not part of this statement), templates, soydoc, namespaces
-   (String() is not the source syntax).
+       {switch}/{case a, b}/{default} (the default case is the item "default": what the parser
+       accepts; SwitchCaseNode.String of the pinned tree writes "{case }", W1), {call} with data= and
+       both parameter forms, {css}, {msg} with text / html-tag runs, placeholders and {plural}.
+   NOT covered here (see notes/astprint-reparse.md): templates, soydoc, namespaces, header
+   parameters (String() is not the source syntax).
 
    As in Spec/ExprSyntax.v every item carries the position of the node it gives rise to; the
    items that give rise to no node ("{", "}", "/}", the closing tags, "in", ...) are at
@@ -28,7 +28,11 @@ Open Scope N_scope.
 
 Definition T_ldelim : tok := tk pit_LeftDelim 0 [123].
 Definition T_rdelim_end : tok := tk pit_RightDelimEnd 0 [47; 125].
-Definition kw (ty p : N) : tok := tk ty p [].
+(* a keyword item: its text is the command name as the scanner sends it ("if", "/if", "css", ...),
+   looked up in the scanner's own table (Generated/Tables.v builtin_idents) *)
+Definition kw_text (ty : N) : bstr :=
+  match find (fun e : bstr * N => snd e =? ty) builtin_idents with Some e => fst e | None => [] end.
+Definition kw (ty p : N) : tok := tk ty p (kw_text ty).
 Definition close_tag (ty : N) : list tok := [T_ldelim; kw ty 0; T_rdelim].
 
 Definition v_in := Eval vm_compute in b "in".
@@ -68,6 +72,43 @@ Definition run_tok (run : list node) : list tok :=
   match run with [] => [] | _ :: _ => [tk pit_Text (run_pos run) (run_text run)] end.
 (* %q of MsgNode.String ("" outside the printer model's domain: excluded by wf) *)
 Definition quoted_attr (s : bstr) : bstr := match go_quote s with Some q => q | None => [] end.
+
+(* ---- {plural $n}{case 1}...{case 2}...{default}...{/plural} (inside a {msg}).  The case values are
+   integer literals; their items, and the {default} tag, give rise to no positioned node (position 0).
+   [f] gives the items of a case body.  A {plural} occurs in two forms: as the child of a {msg} (or of
+   a case of such a {plural}) its case bodies are placeholderized children (parseMsg's placeholderize
+   recurses into exactly these); as a command of a body nested in a {msg} ({msg}{log}{plural}..) its
+   case bodies stay lists of commands. ---- *)
+Definition plural_case_head (cp : N) (cv : Z) : list tok :=
+  [T_ldelim; kw pit_Case cp] ++ tokens_of (NInt 0 cv) ++ [T_rdelim].
+Definition plural_default_head : list tok := [T_ldelim; kw pit_Default 0; T_rdelim].
+Definition pcases_toks (f : list node -> list tok) : list node -> list tok :=
+  fix goc (cs : list node) : list tok :=
+    match cs with
+    | [] => []
+    | NMsgPluralCase cp cv b :: r => plural_case_head cp cv ++ f b ++ goc r
+    | _ :: r => goc r
+    end.
+Definition plural_toks (p : N) (v : node) (cases_toks dflt_toks : list tok) : list tok :=
+  [T_ldelim; kw pit_Plural p] ++ tokens_of v ++ [T_rdelim] ++ cases_toks ++
+  plural_default_head ++ dflt_toks ++ close_tag pit_PluralEnd.
+
+(* the children of a {msg} (or of a case of its {plural}): [run] collects the text and html-tag
+   children seen since the last command; [ct] gives the items of a command, [mt] those of a
+   {plural} child *)
+Definition children_toks (ct mt : node -> list tok) : list node -> list node -> list tok :=
+  fix go (run : list node) (l : list node) {struct l} : list tok :=
+    match l with
+    | [] => run_tok run
+    | x :: r =>
+        match x with
+        | NRawText _ _ => go (run ++ [x]) r
+        | NMsgPlaceholder _ _ (NMsgHtmlTag _ _) => go (run ++ [x]) r
+        | NMsgPlaceholder _ _ c => run_tok run ++ ct c ++ go [] r
+        | NMsgPlural _ _ _ _ _ => run_tok run ++ mt x ++ go [] r
+        | _ => run_tok run ++ go [] r
+        end
+    end.
 
 Fixpoint cmd_toks (n : node) : list tok :=
   let body (x : node) : list tok := match x with NList _ ns => concat (map cmd_toks ns) | _ => [] end in
@@ -129,22 +170,22 @@ Fixpoint cmd_toks (n : node) : list tok :=
        end)
   (* {css e, suffix}: the scanner sends everything up to "}" as one text item *)
   | NCss p e suffix => [T_ldelim; kw pit_Css p; tk pit_Text 0 (css_text e suffix); T_rdelim]
-  (* {msg meaning="m" desc="d"}...{/msg}: [run] collects the text and html-tag children seen since the last command *)
+  (* {msg meaning="m" desc="d"}...{/msg} *)
   | NMsg p _ meaning desc children =>
-      let fix go (run : list node) (l : list node) : list tok :=
-        match l with
-        | [] => run_tok run
-        | x :: r =>
-            match x with
-            | NRawText _ _ => go (run ++ [x]) r
-            | NMsgPlaceholder _ _ (NMsgHtmlTag _ _) => go (run ++ [x]) r
-            | NMsgPlaceholder _ _ c => run_tok run ++ cmd_toks c ++ go [] r
-            | _ => run_tok run ++ go [] r
-            end
-        end in
       [T_ldelim; kw pit_Msg p] ++
       (match meaning with [] => [] | _ => attr_toks v_meaning (quoted_attr meaning) end) ++
-      attr_toks v_desc (quoted_attr desc) ++ [T_rdelim] ++ go [] children ++ close_tag pit_MsgEnd
+      attr_toks v_desc (quoted_attr desc) ++ [T_rdelim] ++ children_toks cmd_toks mtoks [] children ++ close_tag pit_MsgEnd
+  (* a {plural} that is a command of a body nested in a {msg}: its case bodies are bodies *)
+  | NMsgPlural p _ v cases dflt =>
+      plural_toks p v (pcases_toks (fun l => concat (map cmd_toks l)) cases) (concat (map cmd_toks dflt))
+  | _ => []
+  end
+(* a {plural} that is the child of a {msg} or of a case of such a {plural}, and its cases *)
+with mtoks (n : node) : list tok :=
+  match n with
+  | NMsgPlural p _ v cases dflt =>
+      plural_toks p v (concat (map mtoks cases)) (children_toks cmd_toks mtoks [] dflt)
+  | NMsgPluralCase cp cv b => plural_case_head cp cv ++ children_toks cmd_toks mtoks [] b
   | _ => []
   end.
 
@@ -180,6 +221,34 @@ Definition run_ok (run : list node) : Prop :=
   | _ :: _ => run_text run <> [] /\ rawtext_run (run_text run) false false = Ok (run_text run) /\
               msg_raw_text (run_pos run) (run_text run) = run
   end.
+
+(* the cases of a {plural}: non-negative integer values (a negative one prints as "-" "n", which
+   parsePlural refuses), bodies satisfying P *)
+Definition wf_pcases (P : list node -> Prop) : list node -> Prop :=
+  fix goc (cs : list node) : Prop :=
+    match cs with
+    | [] => True
+    | NMsgPluralCase _ cv b :: r => (0 <= cv)%Z /\ in_int64 cv = true /\ P b /\ goc r
+    | _ :: _ => False
+    end.
+
+Definition is_pcase (n : node) : bool := match n with NMsgPluralCase _ _ _ => true | _ => false end.
+
+(* the children of a {msg} / of a case of its {plural}: runs of text / html tags as parseMsgRawText
+   splits them, unnamed placeholders positioned at their command ([wc]), {plural} children ([wm]) *)
+Definition wf_children_gen (wc wm : node -> Prop) : list node -> list node -> Prop :=
+  fix go (run : list node) (l : list node) {struct l} : Prop :=
+    match l with
+    | [] => run_ok run
+    | x :: r =>
+        match x with
+        | NRawText _ _ => go (run ++ [x]) r
+        | NMsgPlaceholder _ _ (NMsgHtmlTag _ _) => go (run ++ [x]) r
+        | NMsgPlaceholder q nm c => run_ok run /\ nm = [] /\ q = pos_of c /\ is_rawtext c = false /\ is_plural c = false /\ wc c /\ go [] r
+        | NMsgPlural _ _ _ _ _ => run_ok run /\ wm x /\ go [] r
+        | _ => False
+        end
+    end.
 
 Section Wf.
 (* the scanner run on an attribute value / the expression part of {css} (lexExpr) *)
@@ -246,22 +315,27 @@ Fixpoint wf_cmd (m : bool) (n : node) : Prop :=
       | None => True
       end
   (* {msg}: not inside a {msg}; the id is assigned later (0 from the parser); the children are runs
-     of text / html tags as parseMsgRawText splits them, and unnamed placeholders positioned at
-     their command, which is well-formed inside a {msg}.  {plural} is not covered. *)
+     of text / html tags as parseMsgRawText splits them, unnamed placeholders positioned at
+     their command, which is well-formed inside a {msg}, or a {plural}, which is then the only
+     child (parseMsg) *)
   | NMsg _ id meaning desc children =>
-      let fix go (run : list node) (l : list node) : Prop :=
-        match l with
-        | [] => run_ok run
-        | x :: r =>
-            match x with
-            | NRawText _ _ => go (run ++ [x]) r
-            | NMsgPlaceholder _ _ (NMsgHtmlTag _ _) => go (run ++ [x]) r
-            | NMsgPlaceholder q nm c =>
-                run_ok run /\ nm = [] /\ q = pos_of c /\ is_rawtext c = false /\ wf_cmd true c /\ go [] r
-            | _ => False
-            end
-        end in
-      m = false /\ id = 0 /\ go_quote meaning <> None /\ go_quote desc <> None /\ go [] children
+      m = false /\ id = 0 /\ go_quote meaning <> None /\ go_quote desc <> None /\
+      wf_children_gen (wf_cmd true) wf_mnode [] children /\
+      (existsb is_plural children = true -> length children = 1%nat)
+  (* a {plural} as a command of a body nested in a {msg} (the variable name is assigned later) *)
+  | NMsgPlural _ nm v cases dflt =>
+      let wf_blist (l : list node) : Prop := allP (wf_cmd m) l /\ no_adjacent_text l in
+      m = true /\ nm = [] /\ wf_expr v /\ wf_pcases wf_blist cases /\ wf_blist dflt
+  | _ => False
+  end
+(* a {plural} as the child of a {msg} / of a case of such a {plural}, and its cases *)
+with wf_mnode (n : node) : Prop :=
+  match n with
+  | NMsgPlural _ nm v cases dflt =>
+      nm = [] /\ wf_expr v /\ forallb is_pcase cases = true /\ allP wf_mnode cases /\
+      wf_children_gen (wf_cmd true) wf_mnode [] dflt
+  | NMsgPluralCase _ cv b =>
+      (0 <= cv)%Z /\ in_int64 cv = true /\ wf_children_gen (wf_cmd true) wf_mnode [] b
   | _ => False
   end.
 
